@@ -9,17 +9,20 @@ from concurrent.futures import ThreadPoolExecutor
 import stages
 
 
-def build_corpus(seed, tier):
+def build_corpus(seed, tier, per_family=None, max_variants=40, ops_per_kind=(14, 8)):
     import corpus as C
     base = C.Corpus(seed, "quick")
     base.fam_regressions()
     base.fam_small_scope()
     base.fam_general()
+    if per_family and ("B" in per_family or "N" in per_family):
+        base.fam_names()
+        base.fam_big()
     out = C.Corpus(seed, tier)
-    per_family = {"R": 12, "X": 40, "G": 12}
+    per_family = per_family or {"R": 12, "X": 40, "G": 12}
     seen = {}
     for s in base.subjects:
-        if len(s.variants) > 40:
+        if len(s.variants) > max_variants:
             continue
         k = seen.get(s.family, 0)
         if k >= per_family.get(s.family, 0):
@@ -32,7 +35,7 @@ def build_corpus(seed, tier):
             kind = l.split(" ")[2]
             if kind == "tables":
                 continue
-            if cnt.get(kind, 0) < (14 if kind in ("tf", "tt") else 8):
+            if cnt.get(kind, 0) < (ops_per_kind[0] if kind in ("tf", "tt") else ops_per_kind[1]):
                 cnt[kind] = cnt.get(kind, 0) + 1
                 kept.append(l)
         out.subjects.append(s)
